@@ -56,45 +56,13 @@ def literal_session(rng, lip):
     return chunks
 
 
-import base64
-def auth_line(rng, kind):
-    def plain(authz, user, pw): return b'AUTH PLAIN ' + base64.b64encode(authz + b'\0' + user + b'\0' + pw) + b'\r\n'
-    user = rng.choice([b'alice', b'bob@example.org', b'u'])
-    if kind == 'good': return plain(rng.choice([b'', b'', b'admin']), user, b'secret')
-    if kind == 'wrongpw': return plain(b'', user, rng.choice([b'Secret', b'secre', b'secret1', b'x']))
-    if kind == 'nopw': return rng.choice([plain(b'', user, b''), b'AUTH PLAIN ' + base64.b64encode(b'\0' + user) + b'\r\n',
-                                           b'AUTH PLAIN ' + base64.b64encode(user) + b'\r\n', b'AUTH PLAIN ' + base64.b64encode(b'\0\0secret') + b'\r\n'])
-    if kind == 'crash': return plain(b'', b'crash', b'secret')
-    if kind == 'mech': return rng.choice([b'AUTH FOO\r\n', b'AUTH PLAINX abc\r\n', b'AUTH GSSAPI\r\n', b'AUTH PLAI\r\n'])
-    if kind == 'b64': return rng.choice([b'AUTH PLAIN !!!!\r\n', b'AUTH PLAIN AGFsaWNlAHNlY3JldA\r\n'])     # not base64 / not padded
-    return b'AUTH\r\n'
-
-
-def auth_session(rng):
-    """histories mixing EHLO/HELO, failed and successful AUTH, RSET and several transactions, aimed at the question
-    'is this client entitled to relay now?'"""
-    chunks = [rng.choice([b'EHLO c.example.net\r\n', b'EHLO c.example.net\r\n', b'HELO c.example.net\r\n'])]
-    authed = False
-    for _ in range(rng.choice([1, 2, 3])):
-        for _ in range(rng.choice([0, 1, 1, 2])):
-            k = rng.choice(['good', 'wrongpw', 'wrongpw', 'nopw', 'crash', 'mech', 'bare'] + (['good'] if not authed else []))
-            chunks.append(auth_line(rng, k)); authed = authed or k == 'good'
-        if rng.random() < 0.3: chunks.append(rng.choice([b'RSET\r\n', b'EHLO again.example.net\r\n', b'HELO again.example.net\r\n', b'NOOP\r\n']))
-        chunks.append(session_gen.mail(rng, rng.choice(['ok', 'ok', 'bounce'])))
-        if rng.random() < 0.15: chunks.append(auth_line(rng, 'good'))           # AUTH inside a transaction: bad sequence
-        for _ in range(rng.choice([1, 2, 3])):
-            chunks.append(session_gen.rcpt(rng, rng.choice(['remote', 'remote', 'ok', 'rbad'])))
-        chunks.append(b'DATA\r\n'); chunks.append(b'Subject: t\r\n\r\nbody\r\n.\r\n')
-    return chunks
-
-
 def gen_cases(engine, rng, tier):
     n = 300 if tier == 'quick' else 6000
     out = []
     for _ in range(n // 2):
         cfg = 'relay=%s;ip=%s;databytes=0;qq=ok,ok,ok,ok;auth=%s' % (rng.choice(['none', 'none', 'unlisted', 'listed', 'badsize']), rng.choice(['v4', 'v6']),
                                                                        rng.choice(['1', '1', '1', '0']))
-        out.append(session_gen.case(cfg, auth_session(rng)))
+        out.append(session_gen.case(cfg, session_gen.auth_session(rng)))
     for _ in range(n // 5):
         lip = rng.choice(['2', '25', '25', '125', '250'])
         cfg = 'relay=%s;ip=v4;databytes=0;qq=ok,ok;lip=%s' % (rng.choice(['none', 'none', 'listed', 'unlisted']), lip)
